@@ -6,12 +6,12 @@ CONSTANTS
   PlaceholderTypedAsCookie = FALSE
   CapReply = TRUE
   Day = 2
-  Ticks <- TicksExh
-  Horizon = 8
+  Ticks <- TicksDeep
+  Horizon = 10
   MaxEx = 1000000
-  ProbeNs <- ProbesExh
-  ProbeUids <- UidsExh
-  MaxOld = 0
+  ProbeNs <- NoProbes
+  ProbeUids <- UidsDeep
+  MaxOld = 2
 VIEW viewU
 INVARIANTS SentLeavesPool FieldCount PlaceholderType ReqFits ReqFitsConst NoShrink PoolCap StaysFull RespFits RespCount ProbeAnswered FreshCookiesOpen
 PROPERTIES SingleUse Answered Fresh
